@@ -42,6 +42,10 @@ def check(ctx):
     r = ctx.tlc_model("CacheLockMC", "CacheLockMC.cfg", timeout=900)
     ctx.tlc_must_fail("CacheLockMC", "CacheLockNoDumpLock.cfg", expect="NoConcurrentMapAccess", workers=8)
     ctx.tlc_must_fail("CacheLockMC", "CacheLockNoRetLock.cfg", expect="NoConcurrentMapAccess", workers=8)
+    # lock ORDER: one shard lock at a time keeps the cache free of deadlock under writer-preferring RWMutexes; a lookup that
+    # goes on into a second shard while inside the first must be refuted (binding: CacheTrace.tla, ~Holds at every *Locked)
+    ctx.tlc_model("CacheLockOrderMC", "CacheLockOrderMC.cfg", workers=4)
+    ctx.tlc_must_fail("CacheLockOrderMC", "CacheLockOrderNested.cfg", expect="Progress", workers=4)
     table = ctx.tlc("CacheLockProbe", "CacheLockProbe.cfg", workers=1, want_cases=True).cases
     expect = {(t["holder"], t["probe"], t["same"]): t["enabled"] for t in table}
     for proto in ("ipfix", "v9"):
@@ -65,6 +69,11 @@ def check(ctx):
                 break
             if to:
                 raise vlib.Infra("stress run timed out:\n" + log[-1500:])
+            if os.path.exists(out) and any(e.get("ev") == "Hung" for e in vlib.read_ndjson(out)):
+                ctx.violation("%s: concurrent decode / Dump / peer lookup: the workers never finished - 150 s after the start goroutines "
+                              "are still stuck inside the cache" % name, {"run": "TestVerifCacheStress VERIF_RECORD=0 seed %d" % (ctx.seed * 100 + k)},
+                              key=proto + ":stuck")
+                break
             if rc != 0:
                 ctx.violation("%s: concurrent stress run failed: %s" % (name, log[-800:]), {"log": log[-3000:]})
                 break
@@ -92,8 +101,15 @@ def check(ctx):
             m = re.search(r'"REJECTED-AT-LINE", (\d+)', res.out)
             if m:
                 n = int(m.group(1))
-                ctx.violation("%s: the recorded lock-boundary trace is not a behaviour of CacheTrace.tla: first unexplainable event %d: %s"
-                              % (name, n, json.dumps(rows[n - 1])[:400]), {"window": rows[max(0, n - 6):n]}, key=proto + ":trace:" + rows[n - 1]["ev"])
+                bad = rows[n - 1]
+                held = [e for e in rows[:n - 1] if e["g"] == bad["g"] and e["ev"].endswith(("Locked", "Done"))]
+                nested = bad["ev"].endswith("Locked") and held and held[-1]["ev"].endswith("Locked")
+                what = ("goroutine %s enters shard %s while it is still inside shard %s (two shard locks at a time: with a writer pending on each, "
+                        "two such goroutines deadlock - CacheLockOrder.tla)" % (bad["g"], bad["s"], held[-1]["s"]) if nested else
+                        "the workers never finished (goroutines stuck inside the cache)" if bad["ev"] == "Hung" else
+                        "first unexplainable event %d: %s" % (n, json.dumps(bad)[:400]))
+                ctx.violation("%s: the recorded lock-boundary trace is not a behaviour of CacheTrace.tla: %s" % (name, what),
+                              {"window": rows[max(0, n - 6):n]}, key=proto + ":trace:" + bad["ev"])
                 break
             if res.status != "ok":
                 raise vlib.Infra("CacheTrace run ended unexpectedly: %s\n%s" % (res, res.out[-1500:]))
